@@ -87,8 +87,13 @@ def main():
         d = make_copy(pid)
         try:
             if 'patch' in m:
-                subprocess.run(['git', 'apply', '--unsafe-paths', '--directory', d, os.path.join(VERIF, m['patch'])],
-                               check=True, cwd=d)
+                pr = subprocess.run(['patch', '-p1', '-s', '--no-backup-if-mismatch', '-i', os.path.join(VERIF, m['patch'])],
+                                    cwd=d, capture_output=True, text=True)
+                if pr.returncode != 0:
+                    print('%-4s %-45s STALE-PATCH does not apply to the current tree' % (pid, name), flush=True)
+                    results.append({'prop': pid, 'name': name, 'caught': False, 'exit': None, 'wall_s': 0,
+                                    'first': ['stale patch'], 'pinned_tests_pass': None})
+                    continue
             else:
                 try:
                     for rel, old, new in m['edits']:
